@@ -23,6 +23,7 @@ static int  nreg = 0, nalive = 0, cur = -1, active = 0;
 static long spin_run = 0;                 /* consecutive spin events without progress */
 static long ev_index = 0;
 static long chg_at[8]; static int nchg = 0;
+static int last_kind[MAXP]; static long last_a[MAXP], last_b[MAXP];
 static __thread long tl_pnum = -1;
 static __thread uint64_t tl_rng = 0;
 
@@ -285,29 +286,29 @@ static void mon_event(int kind, long pnum, long a, long b, long c, const void *c
 /* ------------------------------------------------------------------ controller */
 extern void hx_controller_abort(const char *sig, const char *detail);  /* runner.c: emits verdict, _exit */
 
+static int blocked[MAXP]; static long idle_rounds = 0;
+static void deadlock_abort(void)
+{
+    static char dd[1500]; size_t o = snprintf(dd, sizeof dd, "every live thread is spin-waiting and %ld full rounds over all of them brought no progress (lost wake-up or cyclic wait); last event per thread (pnum:kind:a:b):", idle_rounds);
+    for (int t = 0; t < s_P && o < sizeof dd - 40; ++t) o += snprintf(dd + o, sizeof dd - o, " %d:%s%d:%ld:%ld", t, alive[t] ? "" : "x", last_kind[t], last_a[t], last_b[t]);
+    if (m_sh) o += snprintf(dd + o, sizeof dd - o, " tasks_remain=%ld qcount=%ld", (long)m_sh->tasks_remain, (long)m_sh->taskq.count);
+    hx_controller_abort("C04:deadlock", dd);
+}
+/* A thread that reported a spin step (await loop, or the scheduler had nothing for it) is treated as blocked until some
+ * thread makes progress; the next thread is chosen among the unblocked ones by the case's strategy.  When every live
+ * thread is blocked a "round" is counted and all are retried; 64 rounds without progress = deadlock. */
 static int pick_next(int self, int spinning)
 {
-    /* returns thread to run next (may be self) */
     int cand[MAXP], nc = 0;
-    for (int t = 0; t < s_P; ++t) if (alive[t] && reg[t]) cand[nc++] = t;
-    if (nc == 0) return -1;
-    if (s_strategy == 2) { /* PCT-like */
-        int best = -1;
-        if (!spinning) { for (int i = 0; i < nc; ++i) if (best < 0 || prio[cand[i]] > prio[best]) best = cand[i]; return best; }
-        /* spinning: next lower priority than self, cyclically */
-        int nxt = -1;
-        for (int i = 0; i < nc; ++i) if (cand[i] != self && prio[cand[i]] < prio[self] && (nxt < 0 || prio[cand[i]] > prio[nxt])) nxt = cand[i];
-        if (nxt < 0) for (int i = 0; i < nc; ++i) if (cand[i] != self && (nxt < 0 || prio[cand[i]] > prio[nxt])) nxt = cand[i];
-        return nxt < 0 ? self : nxt;
+    (void)spinning;
+    for (int t = 0; t < s_P; ++t) if (alive[t] && reg[t] && !blocked[t]) cand[nc++] = t;
+    if (nc == 0) {
+        int any = 0; for (int t = 0; t < s_P; ++t) if (alive[t] && reg[t]) { any = 1; blocked[t] = 0; cand[nc++] = t; }
+        if (!any) return -1;
+        if (++idle_rounds > 64) deadlock_abort();
     }
-    if (s_strategy == 1 && !spinning && self >= 0 && alive[self]) { /* sticky */
-        int k = s_param > 1 ? s_param : 8;
-        if (sm64(&s_rng) % (uint64_t)k) return self;
-    }
-    if (spinning && nc > 1) { /* prefer someone else */
-        int r = (int)(sm64(&s_rng) % (uint64_t)(nc - 1)), i = 0;
-        for (int k = 0; k < nc; ++k) { if (cand[k] == self) continue; if (i++ == r) return cand[k]; }
-    }
+    if (s_strategy == 2) { int best = cand[0]; for (int i = 1; i < nc; ++i) if (prio[cand[i]] > prio[best]) best = cand[i]; return best; }
+    if (s_strategy == 1 && self >= 0 && alive[self] && !blocked[self]) { int k = s_param > 1 ? s_param : 8; if (sm64(&s_rng) % (uint64_t)k) return self; }
     return cand[sm64(&s_rng) % (uint64_t)nc];
 }
 
@@ -352,11 +353,11 @@ void slu_mt_verif_event(int kind, long pnum, long a, long b, long c, const void 
     if (s_mode == SCHED_CONTROLLED && active && pnum >= 0 && pnum < MAXP && reg[pnum]) {
         /* only the token holder runs: no lock needed for the monitor */
         if (g_mon_enabled) mon_event(kind, pnum, a, b, c, ctx);
+        last_kind[pnum] = kind; last_a[pnum] = a; last_b[pnum] = b;
         if (!is_yield_kind(kind)) return;
         int spinning = (kind == SLUV_AWAIT_SPIN) || (kind == SLUV_SCHED_EXIT && a == EMPTY);
-        if (spinning) { g_mon.spins++; if (++spin_run > 400000 + 2000L * s_P) {
-                hx_controller_abort("C04:deadlock", "400000 consecutive spin-wait steps without any thread making progress (lost wake-up or cyclic wait)"); } }
-        else if (kind != SLUV_SCHED_ENTER) spin_run = 0;
+        if (spinning) { g_mon.spins++; blocked[pnum] = 1; }
+        else if (kind != SLUV_SCHED_ENTER) { idle_rounds = 0; for (int t = 0; t < s_P; ++t) blocked[t] = 0; }
         g_mon.yields++;
         pthread_mutex_lock(&cm);
         ++ev_index;
@@ -388,7 +389,7 @@ void sched_begin_factor(int P)
 {
     s_P = P > MAXP ? MAXP : P;
     mon_reset();
-    nreg = 0; nalive = 0; cur = -1; spin_run = 0; ev_index = 0;
+    nreg = 0; nalive = 0; cur = -1; spin_run = 0; ev_index = 0; idle_rounds = 0; for (int t = 0; t < MAXP; ++t) blocked[t] = 0;
     s_rng = s_seed ^ 0xD1B54A32D192ED03ull;
     for (int t = 0; t < MAXP; ++t) { reg[t] = 0; alive[t] = 0; pthread_cond_init(&cv[t], NULL); }
     /* PCT priorities: random permutation */
